@@ -20,6 +20,10 @@ func init() {
 			return strings.HasPrefix(rel, "constraint") || strings.HasPrefix(rel, "backend") || strings.HasPrefix(rel, "internal/gkr") || strings.HasPrefix(rel, "internal/utils")
 		})
 		r.RequireMin("POOL-UAF", 20)
+		RunPoolDouble(p, r, func(pk string) bool {
+			rel := strings.TrimPrefix(pk, modPath+"/")
+			return strings.HasPrefix(rel, "constraint") || strings.HasPrefix(rel, "backend") || strings.HasPrefix(rel, "internal/gkr") || strings.HasPrefix(rel, "internal/utils")
+		})
 		ee.RunOptSlice(r)
 		ee.RunOptParam(r)
 		ee.RunGlobalRef(r)
